@@ -24,6 +24,10 @@ GRID = [
     for Av in (0.0, 1.0, 30.0)
     for z, zx in ((1.3e-17, 0.0), (1e-14, 2e-17))
     for g0 in (1.0, 100.0)
+] + [
+    # "all temperatures": below the 10 K where most fits were made, and above 41000 K
+    {"Tgas": T, "Av": 1.0, "zeta": 1.3e-17, "zeta_cr": 1.3e-17, "zeta_xr": 0.0, "omega": 0.5, "G0": 1.0, "nH": 1e4, "Tdust": 15.0}
+    for T in (3.0, 7.5, 5e4)
 ]
 
 # (format, code, law name, marker token, reactants, products, tag)
